@@ -45,7 +45,8 @@ const GUARD: usize = 64 << 10;
 const CHILD_TIMEOUT_S: u64 = 150;
 pub const STACKS: [u64; 2] = [8 << 20, 2 << 20];
 const SHAPES: [&str; 5] = ["asc", "desc", "zigzag", "blocks", "random"];
-const FIRSTS: [&str; 9] = ["none", "remove_min", "remove_max", "next_min", "prev_max", "contains_min", "contains_max", "min", "max"];
+const FIRSTS: [&str; 17] = ["none", "remove_min", "remove_max", "next_min", "prev_max", "contains_min", "contains_max", "min", "max",
+    "get_min", "get_max", "getmut_min", "getmut_max", "index_min", "index_max", "find_min", "find_max"];
 const TEARDOWNS: [&str; 8] = ["drop", "clear", "consume_fwd", "consume_back", "consume_mixed", "partial_fwd", "partial_back", "extend_drop"];
 
 /// Fixed grid of full-scale scenarios (index -> scenario) followed by seeded ones.
@@ -67,7 +68,8 @@ fn grid(tier: Tier) -> Vec<C18World> {
     // one operation aimed at either end of an untouched chain (the far end is n levels deep)
     for (i, f) in FIRSTS.iter().enumerate().skip(1) {
         for (j, sh) in ["asc", "desc"].iter().enumerate() {
-            let mut w = base(if (i + j) % 2 == 0 { "tree" } else { "set" }, STACKS[(i + j) % 2], 3_000_000, sh, "drop");
+            let map_only = f.starts_with("get") || f.starts_with("index");
+            let mut w = base(if (i + j) % 2 == 0 || map_only { "tree" } else { "set" }, STACKS[(i + j) % 2], 3_000_000, sh, "drop");
             w.first = (*f).into();
             g.push(w);
         }
@@ -112,8 +114,10 @@ fn grid(tier: Tier) -> Vec<C18World> {
         }
     }
     // far-end first operations with unoptimised frames (a tail call that an optimised build turns into a loop)
-    for (i, (f, sh)) in [("next_min", "asc"), ("prev_max", "desc"), ("remove_max", "desc"), ("remove_min", "asc"), ("contains_min", "asc"), ("max", "desc"), ("min", "asc")].iter().enumerate() {
-        let mut w = base(if i % 2 == 0 { "tree" } else { "set" }, 2 << 20, 100_000, sh, "drop");
+    for (i, (f, sh)) in [("next_min", "asc"), ("prev_max", "desc"), ("remove_max", "desc"), ("remove_min", "asc"), ("contains_min", "asc"), ("max", "desc"), ("min", "asc"),
+        ("get_min", "asc"), ("get_max", "desc"), ("getmut_min", "asc"), ("index_max", "desc"), ("find_min", "asc"), ("find_max", "desc")].iter().enumerate() {
+        let map_only = f.starts_with("get") || f.starts_with("index");
+        let mut w = base(if i % 2 == 0 || map_only { "tree" } else { "set" }, 2 << 20, 100_000, sh, "drop");
         w.first = (*f).into();
         w.profile = "debug".into();
         g.push(w);
@@ -242,6 +246,8 @@ trait Cont {
     fn ins(&mut self, k: u64);
     fn ext(&mut self, ks: &mut dyn Iterator<Item = u64>);
     fn has(&self, k: u64) -> bool;
+    /// value/key lookups other than `contains`: mode 0 `get`, 1 `get_mut`, 2 `Index`, 3 `find_key` (set: `find` for all)
+    fn look(&mut self, k: u64, mode: u8) -> u64;
     fn succ(&self, k: u64) -> Option<u64>;
     fn pred(&self, k: u64) -> Option<u64>;
     fn lo(&self) -> Option<u64>;
@@ -262,6 +268,14 @@ impl Cont for T {
     }
     fn ext(&mut self, ks: &mut dyn Iterator<Item = u64>) {
         self.extend(ks.map(|k| (PK(k), k as u32)));
+    }
+    fn look(&mut self, k: u64, mode: u8) -> u64 {
+        match mode {
+            0 => self.get(&PK(k)).map(|v| *v as u64).unwrap_or(0),
+            1 => self.get_mut(&PK(k)).map(|v| { *v ^= 1; *v as u64 }).unwrap_or(0),
+            2 => self[&PK(k)] as u64,
+            _ => self.find_key(&PK(k)).map(|x| x.0).unwrap_or(0),
+        }
     }
     fn has(&self, k: u64) -> bool {
         self.contains(&PK(k))
@@ -308,6 +322,9 @@ impl Cont for S {
     }
     fn ext(&mut self, ks: &mut dyn Iterator<Item = u64>) {
         self.extend(ks.map(PK));
+    }
+    fn look(&mut self, k: u64, _mode: u8) -> u64 {
+        self.find(&PK(k)).map(|x| x.0).unwrap_or(0)
     }
     fn has(&self, k: u64) -> bool {
         self.contains(&PK(k))
@@ -382,6 +399,14 @@ fn tree_scenario<C: Cont>(w: &C18World, mut c: C) {
         "prev_max" => acc += c.pred(top).unwrap_or(0),
         "contains_min" => acc += c.has(0) as u64,
         "contains_max" => acc += c.has(top) as u64,
+        "get_min" => acc += c.look(0, 0),
+        "get_max" => acc += c.look(top, 0),
+        "getmut_min" => acc += c.look(0, 1),
+        "getmut_max" => acc += c.look(top, 1),
+        "index_min" => acc += c.look(0, 2),
+        "index_max" => acc += c.look(top, 2),
+        "find_min" => acc += c.look(0, 3),
+        "find_max" => acc += c.look(top, 3),
         "min" => acc += c.lo().unwrap_or(0),
         "max" => acc += c.hi().unwrap_or(0),
         _ => {}
